@@ -40,4 +40,12 @@ run s4-C09a C09 C11
 run s4-C09b C09
 run s4-C06 C03
 run s4-C01 C01 C11
+run s5-C02 C02
+run s5-C05 C05
+run s5-C08 C08 C01
+run s5-C10 C10
+run s5-C12 C12
+run s5-C14 C14
+run s5-C16 C16
+run s5-C17 C17
 echo DONE-ALL >> seeded/RESULTS.txt
